@@ -283,6 +283,9 @@ func checkC18(tier, replay string) int {
 	ctx.Cov["filter_events_executed"] = events
 	ctx.Cov["rule"] = "the real profiler binary (with a fake `go` tool printing a synthetic listing) is run for every sub-multiset of a 6-site universe (read, write at two sites, exit_group, a number in no table, syscall 0 through the XOR idiom) x blacklist subsets of {read, exit_group, bogus_syscall} x allow subsets of {write, rt_sigreturn, bogus_allow, waitpid(i386 only)} x flag spellings (comma, semicolon, blank+comma, repeated flag, a name repeated inside one value, a name repeated across flags) x formats {config, code} x binaries {amd64, 386} (quick: a rotating selection of the last dimensions; thorough: the full product); the emitted name list (YAML parsed by the harness / Go code parsed with go/parser) must equal sort(dedup((found ∩ table) − blacklist) ∪ (allow ∩ table)); the YAML must load through ucfg and compile to a filter that, on every cell of the exact partition, allows exactly those syscalls and answers errno otherwise; non-trivial = runs with a non-empty profile"
 	ctx.Assumptions = []string{"set algebra of the statement for disjoint flag sets", "the fake go tool stands for the disassembler"}
+	if replay != "" {
+		return finishReplay(ctx)
+	}
 	return ctx.Finish()
 }
 
